@@ -14,6 +14,7 @@ import Driver.Json
 import Driver.SqlCmp
 import Driver.SqlAgg
 import Driver.SqlFn
+import Driver.SqlDml
 
 def main (args : List String) : IO UInt32 := do
   let stdin ← IO.getStdin
@@ -30,6 +31,7 @@ def main (args : List String) : IO UInt32 := do
   | ["sqlagg"] => Driver.loop stdin stdout () Driver.SqlAgg.step; return 0
   | ["sqlcmp"] => Driver.loop stdin stdout () Driver.SqlCmp.step; return 0
   | ["sqlfn"] => Driver.loop stdin stdout () Driver.SqlFn.step; return 0
+  | ["sqldml"] => Driver.loop stdin stdout ({} : Driver.SqlDml.St) Driver.SqlDml.step; return 0
   | ["sql"] => Driver.loop stdin stdout ([] : TurVerif.Sql.Db) Driver.Sql.step; return 0
   | ["key"] => Driver.loop stdin stdout () Driver.KeyEnc.step; return 0
   | ["simd"] => Driver.loop stdin stdout Driver.Simd.St.init Driver.Simd.step; return 0
